@@ -1,5 +1,6 @@
 import GoframeModel.Std.Csv
 import GoframeModel.Spec.Table
+import GoframeModel.Lemmas.CsvFrame
 /-
   C09 — CSV export followed by import reproduces the frame.
   Two layers: (1) the csv layer — `readAll (writeAll q recs) = recs` for every table of strings, by
@@ -7,7 +8,7 @@ import GoframeModel.Spec.Table
   `%v` rendering followed by the typing rule gives back the number / the text.
 -/
 namespace Goframe.C09
-open Goframe Frame Csv
+open Goframe Frame Csv CsvLemmas
 
 /-- no field contains a carriage return directly followed by a line feed (the reader normalises CR LF to
 LF even inside quotes) -/
@@ -24,11 +25,39 @@ line breaks inside fields never shift a field into another column or row. -/
 theorem csv_layer_roundtrip (q : Str → Bool) (hq : ∀ s, mustQuote s = true → q s = true)
     (recs : List (List Str)) (w : Nat) (hw : 0 < w) (hlen : ∀ r ∈ recs, r.length = w) (hcr : NoCRLF recs) :
     readAll (writeAll q recs) = .ok recs := by
-  sorry
+  -- `hasCRLF` is the function `CsvLemmas.crlf`
+  have bridge : ∀ s : Str, hasCRLF s = crlf s := by
+    intro s
+    induction s with
+    | nil => rfl
+    | cons a r ih =>
+      cases r with
+      | nil => rw [hasCRLF.eq_2 a [] (by intro _ _ h; cases h), hasCRLF.eq_3]; rfl
+      | cons b r' =>
+        by_cases hab : a = 13 ∧ b = 10
+        · obtain ⟨rfl, rfl⟩ := hab
+          rw [hasCRLF.eq_1]; rfl
+        · rw [hasCRLF.eq_2 a (b :: r') (by
+            intro t ha hb
+            exact hab ⟨ha, (List.cons.inj hb).1⟩), ih]
+          have : (a == cCR && b == cLF) = false := by
+            cases h : (a == cCR && b == cLF) with
+            | false => rfl
+            | true =>
+              simp only [Bool.and_eq_true, beq_iff_eq] at h
+              exact absurd ⟨h.1, h.2⟩ hab
+          simp only [crlf, this, Bool.false_or]
+  exact readAll_writeAll q hq recs w hw hlen
+    (fun r hr s hs => by rw [← bridge]; exact hcr r hr s hs)
 
 /-- the standard writer's decision quotes everything that must be quoted -/
 theorem needsQuotes_covers (s : Str) (h : mustQuote s = true) : needsQuotes s = true := by
-  sorry
+  unfold needsQuotes
+  split
+  · rename_i h0; subst h0; simp [mustQuote] at h
+  · split
+    · rfl
+    · simp [h]
 
 /-- what a cell comes back as: numbers as float64 of the same value, text unchanged -/
 def normalize : Cell → Cell
@@ -45,7 +74,19 @@ def CellLaw (ω : Oracle) : Cell → Prop
   | _ => False
 
 theorem cell_roundtrip (ω : Oracle) (c : Cell) (h : CellLaw ω c) : typeCell ω (ω.fmtV c) = normalize c := by
-  sorry
+  cases c with
+  | nil => exact absurd h (by simp [CellLaw])
+  | int ty v =>
+    obtain ⟨h1, h2⟩ := h
+    simp [typeCell, Oracle.fmtV, normalize, h1, h2]
+  | flt s v =>
+    obtain ⟨h1, h2⟩ := h
+    simp [typeCell, Oracle.fmtV, normalize, h1, h2]
+  | str t =>
+    obtain ⟨h1, h2⟩ := h
+    simp [typeCell, Oracle.fmtV, normalize, h1, h2]
+  | bool b => exact absurd h (by simp [CellLaw])
+  | time t => exact absurd h (by simp [CellLaw])
 
 /-- whole frame: export then import gives the same names, the same number of rows in the same order,
 numbers numerically identical as float64 and text identical -/
@@ -54,7 +95,13 @@ theorem C09_roundtrip (ω : Oracle) {f : Frame} {n : Nat} (hs : f.Sorted) (hr : 
     (hcr : NoCRLF (toCSVRecords ω f)) :
     fromCSV ω (toCSV ω f) =
       .ok (f.map (fun kc => (kc.1, { name := kc.1, data := kc.2.data.map normalize }))) := by
-  sorry
+  have hw : 0 < f.length := by
+    cases f with
+    | nil => exact absurd rfl hne
+    | cons _ _ => simp
+  exact fromCSV_toCSV ω normalize hs hr hne
+    (fun kc hkc c hc => cell_roundtrip ω c (hcells kc hkc c hc))
+    (csv_layer_roundtrip needsQuotes needsQuotes_covers _ f.length hw (toCSVRecords_width ω f) hcr)
 
 /-- the pinned writer loses a lone empty field (finding D10): ["", "x", ""] in one column comes back as ["x"] -/
 theorem lone_empty_pinned :
